@@ -448,6 +448,16 @@ Definition known_locs (roles : list (loc * role)) (secs : list section) : bool :
 Definition prog_ok (roles : list (loc * role)) (secs : list section) : bool :=
   known_locs roles secs && forallb (role_ok secs) roles.
 
+(* which (program, location) pairs fail the shape check: program index * 1000 + location id (999: a section on a location
+   without role).  Only used to say WHAT is wrong when the instance lemma fails; the lemma itself is forallb prog_ok. *)
+Fixpoint shape_failures (roles : list (loc * role)) (i : N) (progs : list (list section)) : list N :=
+  match progs with
+  | [] => []
+  | secs :: r =>
+      map (fun lr => (i * 1000 + fst lr)%N) (filter (fun lr => negb (role_ok secs lr)) roles) ++
+      (if known_locs roles secs then [] else [(i * 1000 + 999)%N]) ++ shape_failures roles (i + 1)%N r
+  end.
+
 (* ---- bounded interleaving search (used to look for a witness schedule when a regenerated program is not
         of a proved shape; supporting, never a proof) ---- *)
 Fixpoint interleavings (a b : nat) (fuel : nat) : list (list nat) :=
